@@ -1198,7 +1198,10 @@ def _trot2(run):
         f = cx.f
         defs, stores = {}, {}
         from ..cfg import pure_locals as _pl, _subst_pure as _sp
-        env_ = {k: v for k, v in _pl(f.node).items() if k != 'T'}      # R = rot2(theta, unit); T = np.pad(R, ...)
+        # R = rot2(theta, unit); T = np.pad(R, ...): every local but the padded matrix itself (whatever it is called) is put in place
+        padded = {st.targets[0].id for st in own_walk(f.node) if isinstance(st, ast.Assign) and len(st.targets) == 1 and isinstance(st.targets[0], ast.Name)
+                  and isinstance(st.value, ast.Call) and getattr(st.value.func, 'attr', getattr(st.value.func, 'id', None)) == 'pad'}
+        env_ = {k: v for k, v in _pl(f.node).items() if k not in padded}
         for st in own_walk(f.node):
             if isinstance(st, ast.Assign) and len(st.targets) == 1:
                 tg = st.targets[0]
@@ -1213,10 +1216,11 @@ def _trot2(run):
             wantT = Normaliser().poly(parse_expr("pad(rot2(P0, P1), (0, 1), mode='constant')"))
         else:
             wantT = Normaliser().poly(parse_expr("pad(rot2(P0[2], P1), (0, 1), mode='constant')"))
-        okT = defs.get('T') == wantT
+        tname = next(iter(padded)) if len(padded) == 1 else 'T'
+        okT = defs.get(tname) == wantT
         ok1 = stores.get('2, 2') == Poly.const(1)
         okt = stores.get(tr_slice) == Normaliser().poly(parse_expr(trv))
-        (run.holds if okT else run.violation)(RULE, key, 'padded rotation', 'T = pad(rot2(theta, unit))' if okT else 'T is %s' % defs.get('T'), f=f)
+        (run.holds if okT else run.violation)(RULE, key, 'padded rotation', 'T = pad(rot2(theta, unit))' if okT else 'T is %s' % defs.get(tname), f=f)
         (run.holds if ok1 else run.violation)(RULE, key, 'corner element', 'T[2,2] = 1' if ok1 else 'T[2,2] is not set to 1 (last row [0 0 1] lost)', f=f)
         (run.holds if okt else run.violation)(RULE, key, 'translation column', 'T[:2,2] = translation' if okt else 'translation column is %s' % stores.get(tr_slice), f=f)
 
@@ -3485,3 +3489,44 @@ def tables_plumbing(run, rule=RULE):
         run.error('R16: r2t does not build its result by block stores')
     else:
         run.violation(rule, f.key, construct, 'stores %s; the definition writes the argument into the leading block and 1 into the corner [-1, -1]' % tbl, f=f)
+
+
+def check_representation_mix(run, rule='R16s'):
+    """q and -q are the same rotation, and `X.vec3` (= q2v) is the vector part of whichever of the two has a non-negative scalar
+    part.  A value computed from `X.vec3` TOGETHER WITH the raw scalar or vector part of the same object (`X.s`, `X.v`, `X.vec`,
+    `X._A`, `X.A`) mixes the two representatives: for s < 0 the pair (s, vec3) = (s, -v) is the conjugate of -q, i.e. the
+    inverse rotation.  Decided on every value-returning path with the locals put in place."""
+    from ..cfg import pure_locals, _subst_pure
+    prog = run.prog
+    n = 0
+    for f in prog.analysed_functions():
+        if f.cls is None or f.module.short != 'quaternion':
+            continue
+        if not any(isinstance(x, ast.Attribute) and x.attr == 'vec3' for x in own_walk(f.node)):
+            continue
+        env = pure_locals(f.node)
+        # tuple definitions  s, u = left.s, left.vec3  are component-wise definitions in pure_locals
+        for r in own_walk(f.node):
+            if not (isinstance(r, ast.Return) and r.value is not None):
+                continue
+            v = r.value
+            for _ in range(4):
+                v = _subst_pure(v, env)
+            norm = {}
+            raw = {}
+            for x in ast.walk(v):
+                if isinstance(x, ast.Attribute) and isinstance(x.value, ast.Name):
+                    if x.attr == 'vec3':
+                        norm.setdefault(x.value.id, x)
+                    elif x.attr in ('s', 'v', 'vec', '_A', 'A'):
+                        raw.setdefault(x.value.id, x)
+            for who in norm:
+                n += 1
+                if who in raw:
+                    run.violation(rule, f.key, 'representatives of %s mixed' % who, 'the returned value is computed from %s.vec3 (the vector part of the '
+                                  'representative with non-negative scalar part) together with %s.%s (the stored representative): for a unit quaternion '
+                                  'with a negative scalar part the pair is (s, -v), the conjugate of -q, so the INVERSE rotation is applied' %
+                                  (who, who, raw[who].attr), f=f, node=r)
+                else:
+                    run.holds(rule, f.key, 'representative of %s' % who, 'vec3 is not combined with the stored scalar / vector part', f=f, node=r)
+    return n
